@@ -44,6 +44,37 @@ theorem rk4_taylor4_scalar (a y h : K) :
   simp only [rungekutta, smul_eq_mul, Nat.cast_ofNat, Nat.cast_one]
   ring
 
+/-! ### homogeneity: a step commutes with a change of the unit of `y` (no absolute scale enters an integrator);
+    and with a change of the unit of time (`A·c`, `h/c`) -/
+
+/-- for a rate law that is homogeneous of degree one (every linear law; `-grad E` of a quadratic energy) one
+    step from `c·y` is `c` times the step from `y`: no absolute scale of the state enters. -/
+theorem euler_homogeneous (f : V → V) (hf : ∀ (c : K) y, f (c • y) = c • f y) (c : K) (y : V) (h : K) :
+    euler f (c • y) h = c • euler f y h := by
+  simp only [euler, hf]
+  module
+
+/-- the same for all four stages of Runge–Kutta (a shortcut that looks at the absolute size of a stage breaks it). -/
+theorem rk4_homogeneous (f : V → V) (hf : ∀ (c : K) y, f (c • y) = c • f y) (c : K) (y : V) (h : K) :
+    rungekutta f (c • y) h = c • rungekutta f y h := by
+  simp only [rungekutta, Nat.cast_ofNat, Nat.cast_one]
+  have s1 : ∀ (a : K) (u w : V), c • u + a • h • c • w = c • (u + a • h • w) := by intros; module
+  have s2 : ∀ (u w : V), c • u + h • c • w = c • (u + h • w) := by intros; module
+  simp only [hf, s1, s2]
+
+theorem rk4_linear_homogeneous (A : V →ₗ[K] V) (c : K) (y : V) (h : K) :
+    rungekutta (fun v => A v) (c • y) h = c • rungekutta (fun v => A v) y h :=
+  rk4_homogeneous _ (fun c y => map_smul A c y) c y h
+
+/-- change of the unit of time: rate `c·f` with step `h/c` is rate `f` with step `h`. -/
+theorem rk4_time_rescale (f : V → V) (c h : K) (hc : c ≠ 0) (y : V) :
+    rungekutta (fun v => c • f v) y (h / c) = rungekutta f y h := by
+  simp only [rungekutta, smul_smul, div_mul_cancel₀ _ hc]
+
+theorem euler_time_rescale (f : V → V) (c h : K) (hc : c ≠ 0) (y : V) :
+    euler (fun v => c • f v) y (h / c) = euler f y h := by
+  simp only [euler, smul_smul, div_mul_cancel₀ _ hc]
+
 /-- one-step error of Euler against the exact flow `exp (h a) y` (real scalar case): order 2. -/
 theorem euler_one_step_error (a y h : ℝ) (hx : |h * a| ≤ 1) :
     |Real.exp (h * a) * y - euler (fun v => a * v) y h| ≤ |h * a| ^ 2 * |y| := by
@@ -483,4 +514,105 @@ theorem relaxPhase_steps_eq_phaseSteps (p : Path V K) (dot : V → V → K) (sqr
 
 end relaxphase
 
+/-! ### choice of the climbing images in `relax` (hand-written model `climbIndices`, tied by correspondence) -/
+section sel
+variable {L : Type} [LT L] [DecidableLT L]
+
+theorem localMaxima_mem (k : Nat) (E : List L) (i : Nat) (hi : i ∈ localMaxima k E) :
+    ∃ j a b c, i = k + j + 1 ∧ E[j]? = some a ∧ E[j + 1]? = some b ∧ E[j + 2]? = some c ∧ a < b ∧ c < b := by
+  fun_induction localMaxima k E with
+  | case1 k a b c t hcond ih =>
+    rcases List.mem_cons.mp hi with h | h
+    · exact ⟨0, a, b, c, by omega, rfl, rfl, rfl, hcond.1, hcond.2⟩
+    · obtain ⟨j, a', b', c', e, h0, h1, h2, hab, hcb⟩ := ih h
+      exact ⟨j + 1, a', b', c', by omega, by simpa using h0, by simpa using h1, by simpa using h2, hab, hcb⟩
+  | case2 k a b c t hcond ih =>
+    obtain ⟨j, a', b', c', e, h0, h1, h2, hab, hcb⟩ := ih hi
+    exact ⟨j + 1, a', b', c', by omega, by simpa using h0, by simpa using h1, by simpa using h2, hab, hcb⟩
+  | case3 k E hne => simp at hi
+
+theorem localMaxima_complete (k : Nat) (E : List L) (j : Nat) (a b c : L)
+    (h0 : E[j]? = some a) (h1 : E[j + 1]? = some b) (h2 : E[j + 2]? = some c) (hab : a < b) (hcb : c < b) :
+    k + j + 1 ∈ localMaxima k E := by
+  induction E generalizing k j with
+  | nil => simp at h0
+  | cons x t ih =>
+    match t, j with
+    | [], _ => simp at h1
+    | [_], _ => simp at h2
+    | y :: z :: t', 0 =>
+      simp at h0 h1 h2
+      subst h0 h1 h2
+      simp [localMaxima, hab, hcb]
+    | y :: z :: t', j + 1 =>
+      have := ih (k + 1) j (by simpa using h0) (by simpa using h1) (by simpa using h2)
+      have e : k + (j + 1) + 1 = k + 1 + j + 1 := by omega
+      rw [e]
+      unfold localMaxima
+      split
+      · exact List.mem_cons_of_mem _ this
+      · exact this
+
+theorem localMaxima_gt (k : Nat) (E : List L) : ∀ i ∈ localMaxima k E, k < i := by
+  intro i hi
+  obtain ⟨j, _, _, _, e, _⟩ := localMaxima_mem k E i hi
+  omega
+
+theorem localMaxima_sorted (k : Nat) (E : List L) : (localMaxima k E).Pairwise (· < ·) := by
+  fun_induction localMaxima k E with
+  | case1 k a b c t hcond ih =>
+    exact List.pairwise_cons.mpr ⟨fun i hi => localMaxima_gt _ _ i hi, ih⟩
+  | case2 k a b c t hcond ih => exact ih
+  | case3 k E hne => exact List.Pairwise.nil
+
+theorem climbIndices_length_le (cp : Nat) (E : List L) : (climbIndices cp E).length ≤ cp := by
+  simp only [climbIndices, List.length_take]; omega
+
+/-- every chosen climbing image is an interior image whose energy is strictly above both neighbours. -/
+theorem climbIndices_interior_max (cp : Nat) (E : List L) (i : Nat) (hi : i ∈ climbIndices cp E) :
+    0 < i ∧ i + 1 < E.length ∧
+      ∃ a b c, E[i - 1]? = some a ∧ E[i]? = some b ∧ E[i + 1]? = some c ∧ a < b ∧ c < b := by
+  obtain ⟨j, a, b, c, e, h0, h1, h2, hab, hcb⟩ := localMaxima_mem 0 E i (List.mem_of_mem_take hi)
+  have hl : j + 2 < E.length := by
+    by_contra hn
+    rw [List.getElem?_eq_none (by omega)] at h2
+    cases h2
+  have e' : i = j + 1 := by omega
+  subst e'
+  exact ⟨by omega, by omega, a, b, c, by simpa using h0, h1, h2, hab, hcb⟩
+
+/-- the chosen images are the *first* `cp` such maxima in path order. -/
+theorem climbIndices_first (cp : Nat) (E : List L) (i i' : Nat) (hi : i ∈ climbIndices cp E) (hlt : i' < i)
+    (a b c : L) (hpos : 0 < i') (h0 : E[i' - 1]? = some a) (h1 : E[i']? = some b) (h2 : E[i' + 1]? = some c)
+    (hab : a < b) (hcb : c < b) : i' ∈ climbIndices cp E := by
+  obtain ⟨j, rfl⟩ : ∃ j, i' = j + 1 := ⟨i' - 1, by omega⟩
+  have hm : 0 + j + 1 ∈ localMaxima 0 E := localMaxima_complete 0 E j a b c (by simpa using h0) h1 h2 hab hcb
+  have hs := localMaxima_sorted 0 E
+  rw [← List.take_append_drop cp (localMaxima 0 E)] at hs hm
+  rcases List.mem_append.mp hm with h | h
+  · simpa [climbIndices] using h
+  · have := (List.pairwise_append.mp hs).2.2 i hi (0 + j + 1) h
+    omega
+
+/-- with enough climbing points every interior strict maximum climbs. -/
+theorem climbIndices_complete (cp : Nat) (E : List L) (hcp : E.length ≤ cp) (j : Nat) (a b c : L)
+    (h0 : E[j]? = some a) (h1 : E[j + 1]? = some b) (h2 : E[j + 2]? = some c) (hab : a < b) (hcb : c < b) :
+    j + 1 ∈ climbIndices cp E := by
+  have hm := localMaxima_complete 0 E j a b c h0 h1 h2 hab hcb
+  have hlen : (localMaxima 0 E).length ≤ E.length := by
+    have : ∀ k (E : List L), (localMaxima k E).length ≤ E.length := by
+      intro k E
+      fun_induction localMaxima k E with
+      | case1 k a b c t hcond ih => simp at ih ⊢; omega
+      | case2 k a b c t hcond ih => simp at ih ⊢; omega
+      | case3 k E hne => simp
+    exact this 0 E
+  simp only [climbIndices]
+  rw [List.take_of_length_le (by omega)]
+  simpa using hm
+
+example : climbIndices 1 [0, 2, 1, 3, (0 : Int)] = [1] := by decide
+example : climbIndices 2 [0, 2, 1, 3, (0 : Int)] = [1, 3] := by decide
+example : climbIndices 1 [3, 1, 1, 2, 2, (0 : Int)] = [] := by decide
+end sel
 end Atomman.C20
